@@ -272,6 +272,8 @@ def eval_rule(rule, data, context):
         if not isinstance(val, bool):
             raise Unspecified("IsPresent operand")
         return present == val
+    if present and op != "IsPresent" and contains_any(var):
+        raise Unspecified("Choice on an implementation-defined text (the Cause of an error)")
     if op in ("IsNull", "IsNumeric", "IsString", "IsBoolean", "IsTimestamp"):
         if not isinstance(val, bool):
             raise Unspecified("Is* operand")
